@@ -7,7 +7,7 @@ import (
 
 func TestStructEnumeration(t *testing.T) {
 	alpha := FieldAlphabet(AllKinds())
-	if len(alpha) != 22*6+3 {
+	if len(alpha) != 24*6+3 {
 		t.Fatalf("alphabet: %d letters", len(alpha))
 	}
 	n1 := Specs(alpha, 1, func(int, StructSpec) {})
@@ -18,7 +18,7 @@ func TestStructEnumeration(t *testing.T) {
 		}
 	})
 	// two embedded fields of the same name cannot be built: 5 ordered pairs
-	if n1 != 135 || n2 != 135*135-5 {
+	if n1 != 147 || n2 != 147*147-5 {
 		t.Errorf("counts: %d single, %d pairs", n1, n2)
 	}
 	Specs(alpha, 1, func(_ int, s StructSpec) {
